@@ -7,7 +7,7 @@ from enum import Enum, IntEnum
 
 from asyncfix import FMsg, FTag
 from asyncfix.codec import Codec
-from asyncfix.errors import FIXConnectionError
+from asyncfix.errors import EncodingError, FIXConnectionError
 from asyncfix.journaler import Journaler
 from asyncfix.message import FIXMessage, MessageDirection
 from asyncfix.protocol import FIXProtocolBase
@@ -259,7 +259,17 @@ class AsyncFIXConnection:
                 " order to get valid response handling"
             )
 
-        encoded_msg = self._codec.encode(msg, self._session).encode("utf-8")
+        next_num_out = self._session.next_num_out
+        encoded_text = self._codec.encode(msg, self._session)
+        encoded_msg = encoded_text.encode("utf-8")
+        if len(encoded_msg) != len(encoded_text):
+            # BodyLength(9) / CheckSum(10) are computed per character, with non-ASCII
+            #   field values they do not describe the bytes: refuse instead of
+            #   transmitting a garbled frame (and give the MsgSeqNum back)
+            self._session.next_num_out = next_num_out
+            raise EncodingError(
+                f"Non-ASCII field values are not supported, got {repr(msg)}"
+            )
 
         msg_raw = encoded_msg.replace(b"\x01", b"|")
         self.log.debug(
